@@ -173,6 +173,17 @@ impl Drop for RefinedTcpStream {
 
 impl Read for RefinedTcpStream {
     fn read(&mut self, buf: &mut [u8]) -> IoResult<usize> {
+        #[cfg(tiny_http_verif)]
+        if crate::verif::enabled() {
+            let result = self.stream.read(buf);
+            let port = match self.stream.peer_addr() {
+                Ok(Some(addr)) => addr.port() as usize,
+                _ => 0,
+            };
+            let n = *result.as_ref().unwrap_or(&usize::MAX);
+            crate::verif::point(crate::verif::FP_SOCK_READ, port, n);
+            return result;
+        }
         self.stream.read(buf)
     }
 }
